@@ -67,8 +67,13 @@ func oracle(w *bufio.Writer, n int, r *hx.Rand) {
 		t.selfTestWatcher()
 		noWatcher = t.noWatcher
 	}
+	last := os.Getenv("SCOPE_LAST") // the history being executed is written here: if a goroutine of the
+	// implementation panics the process dies and the check finds the history in this file
 	for i := 0; i < n; i++ {
 		hist := genHistory(r, true, false)
+		if last != "" {
+			os.WriteFile(last, []byte(strings.Join(hist, "\n")+"\n"), 0o644)
+		}
 		h := newH()
 		h.oracle, h.noWatcher, h.timeouts = true, noWatcher, timeouts
 		for l := 0; l < len(evNames); l++ {
